@@ -155,6 +155,10 @@ type operation struct {
 	// configuration handed to the datasource
 	entity bool
 	reps   *val
+	// entity operations: what the representations are generated from (entity types of the
+	// fragments, fields their selected @requires fields need); shared by clones, never modified
+	entTypes []string
+	entNeed  map[string]*reqSel
 }
 
 func (n *node) key() string {
